@@ -91,7 +91,10 @@ def make_case(tier, seed, index):
     if index < ns:
         return _sweep_case(tier, index)
     index -= ns
-    rnd = C.rng_for(seed, ID, index)
+    return random_case(C.rng_for(seed, ID, index))
+
+
+def random_case(rnd):
     tr = rnd.choice(["udp", "tcp"])
     tau = rnd.choice([0.25, 0.5, 1.0, 2.0])
     r = rnd.choice([0, 1, 2, 3])
@@ -148,7 +151,8 @@ def simplify(case):
     return out
 
 
-def run_case(case):
+def simulate(case):
+    """Runs the concurrent-caller workload; returns (world, dev, results, status)."""
     goodwe, gp, ge = C.goodwe_mods()
     tr, tau, r, count = case["transport"], case["timeout"], case["retries"], case["count"]
     world = World(faults=case["faults"], max_steps=100_000)
@@ -184,17 +188,28 @@ def run_case(case):
         await asyncio.gather(*tasks)
 
     status, _ = C.run_world(world, main())
-    violations = []
-    net = world.net
-    if status != "ok":
-        violations.append(viol(f"C06:hang:{tr}", f"callers did not terminate: {status} at t={world.clock.now}"))
-    # attribute transmissions to requests by the register in the request frame
+    return world, dev, results, status
+
+
+def by_register(net, tr):
+    """attribute transmissions to requests by the register in the request frame"""
     reg_of = {}
     for t in net.transmissions:
         d = t["data"]
         reg = ((d[8] << 8) | d[9]) if tr == "tcp" else ((d[2] << 8) | d[3])
         t["reg"] = reg
         reg_of.setdefault(reg, []).append(t)
+    return reg_of
+
+
+def run_case(case):
+    tr, tau, r, count = case["transport"], case["timeout"], case["retries"], case["count"]
+    world, dev, results, status = simulate(case)
+    violations = []
+    net = world.net
+    if status != "ok":
+        violations.append(viol(f"C06:hang:{tr}", f"callers did not terminate: {status} at t={world.clock.now}"))
+    reg_of = by_register(net, tr)
     # event sequence numbers of tx and deliveries come from the world log
     seq_tx = {}
     seq_dl = []
